@@ -855,6 +855,11 @@ class Executor:
         return self.bind(self.ev_list([node.left, node.comparators[0]], st), f)
 
     def compare(self, op: ast.cmpop, a: Any, b: Any, s: State, node: ast.AST) -> list[Res]:
+        hc = self.hooks.get("compare")
+        if hc is not None:
+            r = hc(self, op, a, b, s, node)
+            if r is not None:
+                return r
         if isinstance(op, (ast.Is, ast.IsNot)):
             z = self.identical(a, b, s, node)
             return self.ok(SV(TBool, z if isinstance(op, ast.Is) else z3.Not(z)), s)
@@ -999,6 +1004,15 @@ class Executor:
             r = h(self, v, sl, s, node)
             if r is not None:
                 return r
+        if isinstance(v, SV) and isinstance(v.td, TSeqT) and sl.upper is None and sl.step is None and isinstance(sl.lower, ast.Constant) \
+                and isinstance(sl.lower.value, int) and sl.lower.value >= 0:
+            k = sl.lower.value
+            info = v.td.info
+            z = smt.fresh_const("tail", v.td.sort)
+            i = z3.Int(smt.fresh_name("ti"))
+            s.assume(info.len(z) == smt.zmax(info.len(v.z) - k, 0))
+            s.assume(z3.ForAll([i], z3.Implies(z3.And(0 <= i, i < info.len(z)), info.at(z, i) == info.at(v.z, i + k)), patterns=[info.at(z, i)]))
+            return self.ok(SV(v.td, z, True), s)
         raise OutsideSubset(f"slice of {v!r}", node)
 
     def ev_Starred(self, node: ast.Starred, st: State) -> list[Res]:
@@ -1087,6 +1101,8 @@ class Executor:
         s1.env = dict(s1.env)
         s1.assume(0 <= i, i < info.len(it.z))
         s1.env[gen.target.id] = self.seq_elem(it, i, s1)
+        snapshot = smt._counter[0]
+        n_obl = len(self.obligations)
         rs = self.ev(node.elt, s1)
         if len(rs) != 1 or rs[0].kind != "ok" or not isinstance(rs[0].value, SV):
             raise OutsideSubset("comprehension element is not a single pure value", node)
@@ -1095,8 +1111,10 @@ class Executor:
         z = smt.fresh_const("map", td.sort)
         s.assume(td.info.len(z) == info.len(it.z))
         extra = rs[0].state.pc[len(s1.pc):]
-        body = z3.Implies(z3.And(0 <= i, i < info.len(it.z)), z3.And(td.info.at(z, i) == v.z, *extra))
-        s.assume(z3.ForAll([i], body, patterns=[td.info.at(z, i)]))
+        # values created while evaluating the element for the arbitrary index i depend on i: skolem functions of i
+        vz, extra = _lift_fresh([v.z] + list(extra), i, snapshot)[0], _lift_fresh([v.z] + list(extra), i, snapshot)[1:]
+        body = z3.Implies(z3.And(0 <= i, i < info.len(it.z)), z3.And(td.info.at(z, i) == vz, *extra))
+        s.assume(z3.ForAll([i], body, patterns=[td.info.at(z, i), info.at(it.z, i)]))
         return self.ok(SV(td, z, True), s)
 
     # ------------------------------------------------------------ assignment
@@ -1217,6 +1235,41 @@ class Executor:
                 st.ghost["pyobjs"] = reg
             return sv
         raise OutsideSubset(f"cannot store {value!r} as {td}", node)
+
+
+_lift_cache: dict = {}
+
+
+def _lift_fresh(exprs: list, i: z3.ExprRef, snapshot: int) -> list:
+    """Replace every constant created after ``snapshot`` (names ``prefix!k`` with k > snapshot) by a function of i."""
+    consts: dict[str, z3.ExprRef] = {}
+    seen = set()
+    stack = list(exprs)
+    while stack:
+        t = stack.pop()
+        if t.get_id() in seen:
+            continue
+        seen.add(t.get_id())
+        if z3.is_quantifier(t):
+            stack.append(t.body())
+            continue
+        if z3.is_const(t) and t.decl().kind() == z3.Z3_OP_UNINTERPRETED:
+            n = t.decl().name()
+            if "!" in n:
+                try:
+                    k = int(n.rsplit("!", 1)[1])
+                except ValueError:
+                    k = -1
+                if k > snapshot and not t.eq(i):
+                    consts[n] = t
+        stack.extend(t.children())
+    subs = []
+    for n, c in consts.items():
+        f = z3.Function(f"sk_{n}", smt.IntS, c.sort())
+        subs.append((c, f(i)))
+    if not subs:
+        return list(exprs)
+    return [z3.substitute(e, *subs) for e in exprs]
 
 
 def _raise(e: Exception):
